@@ -4,6 +4,7 @@
 package main
 
 import (
+	"bufio"
 	"bytes"
 	"context"
 	"errors"
@@ -973,6 +974,11 @@ func (area) Run(line string) string {
 }
 
 func main() {
+	if len(os.Args) == 2 && os.Args[1] == "facts" {
+		// constants of the Go toolchain this harness was built with, for lean/Generated/C10Facts.lean
+		fmt.Printf("maxScanTokenSize %d\n", bufio.MaxScanTokenSize)
+		return
+	}
 	if len(os.Args) == 2 && os.Args[1] == "child" {
 		line, err := io.ReadAll(os.Stdin)
 		if err != nil {
